@@ -228,13 +228,14 @@ def directed():
 
 def gen(rng, tier):
     quick = tier == "quick"
+    scale = float(os.environ.get("C11_SCALE", "1"))   # debugging aid: shrink every budget
     bound = 2 if quick else 3
     cases = list(directed())
     for _ in cases:
         count_stat("directed")
     # (i) systematic preemption-bounded enumeration on tiny configurations: 1..3 producers x max_size 1..3 x 1..3 adds each.
     # the full product is enumerated for the smallest thread counts; larger ones are sub-sampled from the same enumeration
-    budget = 2600 if quick else 20000
+    budget = int(scale * (2600 if quick else 20000))
     configs = []
     for m in (1, 2, 3):
         for adds in ([1], [2], [3], [1, 1], [2, 1], [2, 2], [3, 2], [1, 1, 1], [2, 1, 1], [3, 3, 3]):
@@ -260,7 +261,7 @@ def gen(rng, tier):
             count_stat("sys P=%d M=%d" % (len(adds), m))
     # (ii) PCT-style random schedules: random priorities, d-1 priority change points at random steps, plus
     # uniformly random interleavings; spurious-CAS flags at random steps
-    n_pct = 2200 if quick else 12000
+    n_pct = int(scale * (2200 if quick else 12000))
     for i in range(n_pct):
         P = 1 + rng.below(3)
         m = 1 + rng.below(3)
@@ -301,7 +302,7 @@ def gen(rng, tier):
         cases.append(ring_case(m, mk_prods(adds), chunks, sched))
         count_stat("pct P=%d M=%d" % (P, m))
     # spin lock: 2..3 threads, every mix of lock()/try_lock(), random interleavings and bursts
-    n_spin = 500 if quick else 3000
+    n_spin = int(scale * (500 if quick else 3000))
     for i in range(n_spin):
         T = 2 + rng.below(2)
         threads = [(rng.choice(["l", "l", "t"]), 1 + rng.below(2)) for _ in range(T)]
